@@ -168,6 +168,11 @@ func vTemplateC02(t int, h *vHoles) *vRef {
 	if t < n {
 		return vAtomC01(vKeyAtoms[t], h)
 	}
+	if t >= n+2*n*n {
+		// Boolean constants mixed in (templates n+2n^2 .. n+2n^2+8n-1)
+		t -= n + 2*n*n
+		return vConstMix(t%vNumConstMix, vAtomC01(vKeyAtoms[t/vNumConstMix%n], h), vAtomC01(vKeyAtoms[(t/vNumConstMix+3)%n], h))
+	}
 	t -= n
 	and := t%2 == 0
 	t /= 2
@@ -183,3 +188,4 @@ func VN_C01_D1(tier int) int { return vNumTemplatesC01D1() }
 func VN_C01_D2(tier int) int { return vNumTemplatesC01D2() }
 func VN_C02_INT_D1(tier int) int { return vNumTemplatesC02(1) }
 func VN_C02_INT_D2(tier int) int { return vNumTemplatesC02(2) }
+func VN_C02_INT_K(tier int) int  { return vNumConstMix * len(vKeyAtoms) }
